@@ -191,9 +191,11 @@ func (s *Stash) clear(start, end int) {
 		}
 		if start <= end {
 			newEnd := len(s.forms) - (end - start) - 1
-			copy(s.forms[:start], s.forms[end:])
+			// start and end count from the most recent form so the forms
+			// cleared are at len-1-end through len-1-start.
+			copy(s.forms[len(s.forms)-1-end:], s.forms[len(s.forms)-start:])
 			// Make sure references are removed so GC can collect them.
-			for i := end + 1; i < len(s.forms); i++ {
+			for i := newEnd; i < len(s.forms); i++ {
 				s.forms[i] = nil
 			}
 			s.forms = s.forms[:newEnd]
